@@ -27,7 +27,7 @@ func init() {
 	register(&prop{
 		id:    "C11",
 		level: "exploration",
-		rule: "PRNG rounds: 1-32 concurrent requesters x 1-4 responders x behaviour per request {immediate, released-before-Result, late (released after the timeout error was returned), twice, never, Result called after the timeout, two replies back to back, 3-5 replies from different goroutines in flight before Result, no reply with a zero or negative timeout}, issued through Engine.Request or through Context.Request of an actor (also one whose spawn context is cancelled); tcp: requests to an actor on another node interleaved with fire-and-forget messages to it; every request carries a unique id and every reply names the id it answers; " +
+		rule: "PRNG rounds: 1-32 concurrent requesters x 1-4 responders x behaviour per request {immediate, released-before-Result, late (released after the timeout error was returned), twice, never, Result called after the timeout, two replies back to back, 3-5 replies from different goroutines in flight before Result, no reply with a zero or negative timeout, reply waiting before Result() is called with a timeout of a few nanoseconds}, issued through Engine.Request or through Context.Request of an actor (also one whose spawn context is cancelled); tcp: requests to an actor on another node interleaved with fire-and-forget messages to it; every request carries a unique id and every reply names the id it answers; " +
 			"non-trivial = >=2 requests outstanding at once; distinct by (requesters, responders, multiset of behaviours). Rounds in which ActorDuplicateIdEvent{response/...} occurs (random response-id collision, D13) are classified and not judged",
 		assumptions: []string{
 			"timeouts are only judged from below: an error must not come before the timeout has elapsed on the monotonic clock; that it comes at all is covered by a generous watchdog; when it expires the verdict is taken from the state of the process: at rest (every goroutine parked, see atRest) means Result() will never return - a violation - anything else is inconclusive",
@@ -77,6 +77,7 @@ const (
 	bhTwiceNow      // two replies back to back from inside Receive
 	bhFanOut        // 3-5 replies from different goroutines, all on their way before Result() is called
 	bhNeverNoTime   // no reply, and a timeout that is already used up (zero or negative)
+	bhWaitingTiny   // the reply is waiting before Result() is called, the timeout is a few nanoseconds: the reply wins
 )
 
 type reqMsg struct {
@@ -103,7 +104,7 @@ func (rsp *c11Responder) Receive(c *actor.Context) {
 		rsp.pending[m.ID] = c.Sender()
 		rsp.mu.Unlock()
 		switch m.Bh {
-		case bhImmediate, bhTwice, bhDelayedResult:
+		case bhImmediate, bhTwice, bhDelayedResult, bhWaitingTiny:
 			c.Respond(&replyMsg{ForID: m.ID, Nth: 1})
 			rsp.mu.Lock()
 			rsp.answers[m.ID]++
@@ -187,7 +188,7 @@ func c11Run(c *caseCtx) (res caseResult) {
 		i := i
 		o := &outs[i]
 		o.id = i + 1
-		o.bh = pick(r, bhImmediate, bhImmediate, bhBeforeResult, bhLate, bhTwice, bhNever, bhDelayedResult, bhTwiceNow, bhFanOut, bhNeverNoTime)
+		o.bh = pick(r, bhImmediate, bhImmediate, bhBeforeResult, bhLate, bhTwice, bhNever, bhDelayedResult, bhTwiceNow, bhFanOut, bhNeverNoTime, bhWaitingTiny)
 		o.rsp = r.Intn(nRsp)
 		bhCount[o.bh]++
 		wg.Add(1)
@@ -198,6 +199,9 @@ func c11Run(c *caseCtx) (res caseResult) {
 			to := timeout
 			if o.bh == bhImmediate || o.bh == bhBeforeResult || o.bh == bhTwice || o.bh == bhTwiceNow || o.bh == bhFanOut {
 				to = 20 * time.Second // the reply is there (or on its way): the timeout must not matter
+			}
+			if o.bh == bhWaitingTiny {
+				to = time.Duration(1+o.id%500) * time.Nanosecond
 			}
 			if o.bh == bhNeverNoTime {
 				to = time.Duration(-(o.id % 3)) * time.Millisecond // 0, -1ms, -2ms: e.g. time.Until(deadline) with nothing left
@@ -249,6 +253,13 @@ func c11Run(c *caseCtx) (res caseResult) {
 				// the first reply has been accepted, the others are inside their Send (or already through)
 				waitFor(wd, func() bool { return atomic.LoadInt32(&first) > 0 })
 				time.Sleep(2 * time.Millisecond)
+			}
+			if o.bh == bhWaitingTiny {
+				// the reply is in the Response (Respond has returned) before Result() is called
+				if !waitFor(wd, func() bool { return rsp.answered(o.id) }) {
+					atomic.AddInt32(&stuck, 1)
+					return
+				}
 			}
 			if o.bh == bhDelayedResult {
 				// scatter/gather: the reply has been sent (Respond returned), then more than the timeout passes
@@ -336,7 +347,7 @@ func c11Run(c *caseCtx) (res caseResult) {
 			continue
 		}
 		switch o.bh {
-		case bhImmediate, bhBeforeResult, bhTwice, bhDelayedResult, bhTwiceNow, bhFanOut:
+		case bhImmediate, bhBeforeResult, bhTwice, bhDelayedResult, bhTwiceNow, bhFanOut, bhWaitingTiny:
 			if o.err != nil {
 				res.violate("request %d (behaviour %d): Result returned error %v although the reply had been sent (elapsed %v)", o.id, o.bh, o.err, o.elapsed)
 				continue
